@@ -4,8 +4,11 @@
   is a READ at `worldid % <that field>.shape[0]`, in every kernel outside `set_const` — so world w sees exactly slice
   w % n of the field, i.e. what an unbatched Model holding that slice would show it (n = 1 ⇒ index 0).  With NI-world
   (C09) nothing else of the batched field can influence world w.
+  `noncollision_geometry_consumers_in_table`: the non-collision consumers of batched geom_size (spatial-tendon wrapping,
+  fluid force) are rows of the table (coverage / non-vacuity of the table theorem for them).
   C10_partial: fields consumed on the HOST at put_model/make_data time are outside the table (listed in the
-  evidence as host-consumed).
+  evidence as host-consumed); arrays handed whole to a `wp.func` (ray, sensor, narrowphase helpers) are indexed inside
+  the callee, which the table does not see (covered by the differential oracle only).
 -/
 import MjwVerif.Gen.Graph
 import MjwVerif.Lemmas.NI
@@ -29,6 +32,33 @@ def batchedViolations : List (String × String × String × RW) :=
     the table found that defect.) -/
 theorem batched_fields_sliced : batchedViolations = [] := by
   decide +kernel
+
+/-- the table rows "a kernel of module `m` READS a batched Model field" (names are interned: only Nat comparisons here) -/
+def batchedReadRows (m : String) : List Access :=
+  let mi := moduleId m
+  rows.filter (fun a => a.modul == mi && a.fclass == .modelBatched && a.rw == .read)
+
+/-- the table has a row "kernel `k` of module `m` READS the batched Model field `f`" (so `batched_fields_sliced` speaks
+    about that access).  Strings are compared for the distinct kernels of the module and the distinct fields of the
+    kernel only (string comparison is slow in the kernel). -/
+def readsBatched (m k f : String) : Bool :=
+  let rs := batchedReadRows m
+  match ((rs.map (·.kernel)).eraseDups).find? (fun i => name i == k) with
+  | none => false
+  | some ki => (((rs.filter (fun a => a.kernel == ki)).map (·.field)).eraseDups).any (fun i => name i == f)
+
+/-- **Coverage of the non-collision consumers of batched geometry.**  The kernels that consume `geom_size` outside
+    collision detection — spatial-tendon wrapping around spheres/cylinders, fluid forces — are rows of the table, i.e. `batched_fields_sliced` constrains exactly these reads (it would
+    be vacuous for them if the extractor lost the kernel or its launch binding).  A change such as
+    `geom_size[elementid % geom_size.shape[0], …]` in `_spatial_geom_tendon` turns that row's class into `other` and
+    breaks `batched_fields_sliced` (checked against the regenerated table of the seeded change C10b). -/
+theorem noncollision_geometry_consumers_in_table :
+    readsBatched "smooth" "smooth._spatial_geom_tendon" "Model.geom_size" = true ∧
+    readsBatched "passive" "passive._fluid_force" "Model.geom_size" = true := by
+  decide +kernel
+
+/-- non-vacuity of `readsBatched`: it is `false` where the table has no such row (here: no such module) -/
+example : readsBatched "no_such_module" "smooth._spatial_geom_tendon" "Model.geom_size" = false := by decide +kernel
 
 /-- `set_const` kernels write derived Model fields; each write to a batched field must use a modulo index or the
     world id with a launch dimension equal to the field's own batch size.  The rows below are the ones whose modulo
